@@ -552,8 +552,9 @@ register(
     lean_modules=["EventppVerif.Properties.C14", "EventppVerif.Properties.C14s"],
     suites=[heter_suite],
     level_text="Lean theorems on the heterogeneous model (first listed callable prototype is selected; an invocation/dispatch/enqueue reaches exactly the callbacks bound to that prototype; "
-               "queued events of all prototypes are consumed exactly once in FIFO order; processIf touches only events filed under prototypes its predicate is callable with and never reads a slot as another type) "
-               "+ correspondence of HeterEventQueue with the model on generated histories under ASan, with the callable matrix measured from the compiler.",
+               "queued events of all prototypes are consumed exactly once in FIFO order; processIf touches only events filed under prototypes its predicate is callable with and never reads a slot as another type; "
+               "listeners that enqueue while a processing call runs (stepS) and a callback that empties its own list while it is invoked (stepC: the invocation in flight still reaches every callback it started on, once, in order)) "
+               "+ correspondence of HeterEventQueue and of a stand-alone HeterCallbackList with the model on generated histories under ASan, with the callable matrix measured from the compiler.",
     level_note="the C++ overload/convertibility rules are not modelled: the callable matrix is measured by the harness (CanInvoke) for a fixed universe of argument types; slot re-typing is C++ mechanics exercised with ASan",
     design_ref="5.14",
 )
